@@ -1,9 +1,49 @@
 import SoundeventModel.Ops.Common
+import SoundeventModel.Ops.C16
+import SoundeventModel.Axis
 namespace SE.Ops.C17
-open Lean SE
+open Lean SE SE.Axis SE.Ops.C16
 
-def handle (op : String) (_a : Json) : Except String Json := do
+def getSamples (a : Json) : Except String (Samples Int) := do
+  let cs ← getRatList (← fld a "coords")
+  let ds ← (← fldArr a "data").mapM (·.getInt?)
+  if cs.length != ds.length then .error "coords/data length"
+  return cs.zip ds
+
+def samplesJ (s : Samples Int) : Json :=
+  Json.mkObj [("coords", ratsJ (coordsOf s)), ("data", arrJ ((dataOf s).map intJ))]
+
+def getPos (s : String) : Option Pos :=
+  match s with
+  | "start" => some .start
+  | "center" => some .center
+  | "end" => some .end
+  | _ => none
+
+def handle (op : String) (a : Json) : Except String Json := do
   match op with
+  | "crop_dim" =>
+    let s ← getSamples a
+    let eps := (← fldOptRat a "eps").getD defaultEps
+    return aexceptJ samplesJ (cropDim s (← fldOptRat a "start") (← fldOptRat a "stop")
+      (← fldBool a "lc") (← fldBool a "rc") eps)
+  | "extend_dim" =>
+    let s ← getSamples a
+    let eps := (← fldOptRat a "eps").getD defaultEps
+    return aexceptJ samplesJ (extendDim s (← fldOptRat a "step_attr") (← fldOptRat a "start")
+      (← fldOptRat a "stop") (← fldInt a "fill") eps (← fldBool a "lc") (← fldBool a "rc"))
+  | "width" =>
+    let s ← getSamples a
+    let attr ← fldOptRat a "step_attr"
+    let w ← fldInt a "w"
+    let fill ← fldInt a "fill"
+    let pos := getPos (← fldStr a "pos")
+    match ← fldStr a "fn" with
+    | "adjust" => return aexceptJ samplesJ (adjustWidth s attr w fill pos)
+    | "crop" => return aexceptJ samplesJ (cropWidth s w.toNat pos)
+    | "extend" => return aexceptJ samplesJ (extendWidth s attr w.toNat fill pos)
+    | f => .error s!"unknown width function {f}"
+  | "noop" => return Json.null
   | _ => .error s!"C17: unknown op {op}"
 
 end SE.Ops.C17
